@@ -10,6 +10,7 @@ extension / directory texts (`Pat.Ok`: no glob metacharacters, no `/`).
 import MilaModel.Model.LayeredFs
 import MilaModel.Spec.OverlayFs
 import MilaModel.Lemmas.FsList
+import MilaModel.Lemmas.FsClosed
 import MilaModel.Props.C12
 
 namespace Mila.Props.C13
@@ -370,5 +371,71 @@ example :
     demoFs.list (bs ['n', 'o']) none false = .ok [] ∧
     demoFs.list (bs ['e']) none false = .ok [] := by
   refine ⟨?_, ?_, ?_, ?_, ?_⟩ <;> decide
+
+/-! ### listings and the tree invariant -/
+
+/-- **listed_reachable.** A listing is computed from the flat map of each layer (entries with the
+directory as a prefix).  On layers satisfying the tree invariant (`C12.history_closed`: every
+reachable state) each listed path is reached by the kernel's path walk in the layer it comes from —
+as a directory for `subdirectories` — which is what `glob`'s descent through real directories
+yields.  Without the invariant this fails (see the `example` below). -/
+theorem listed_reachable (fs : Fs) (hwf : ∀ l ∈ fs.layers, l.Closed)
+    {d : Bytes} {q : Loc} (h : locOf d = some q) :
+    (∀ pt, Pat.Ok pt → ∀ pat ∈ pt.glob, ∀ r, fs.list d pat false = .ok r →
+      ∀ x ∈ r, ∃ w ∈ walksOf fs, ∃ c, x = showPath c ∧ (w.posixAt c).isSome) ∧
+    (∀ r, fs.subdirectories d false = .ok r →
+      ∀ x ∈ r, ∃ w ∈ walksOf fs, ∃ c, x = showPath c ∧ w.posixAt c = some .dir) := by
+  constructor
+  · intro pt hok pat hp r hr x hx
+    obtain ⟨r', hr', hl⟩ := list_spec fs h pt hok pat hp
+    rw [hr] at hr'
+    have hrr : r = r' := Res.ok.inj hr'
+    subst hrr
+    obtain ⟨es, hes, c, hc, rfl⟩ := (hl.2 x).mp hx
+    obtain ⟨w, hw, rfl⟩ := List.mem_map.mp hes
+    obtain ⟨l, hl', rfl⟩ := List.mem_map.mp hw
+    refine ⟨walkOf l, hw, c, rfl, ?_⟩
+    unfold entriesUnder at hc
+    split at hc
+    · obtain ⟨e, he, rfl⟩ := List.mem_map.mp hc
+      have hew : e ∈ walkOf l := (List.mem_filter.mp he).1
+      obtain ⟨e0, he0, rfl⟩ := List.mem_map.mp hew
+      rw [posixAt_walkOf (hwf l hl')]
+      obtain ⟨k, hk⟩ := at_of_mem l e0 he0 ((hwf l hl').noRoot e0 he0)
+      simp [hk]
+    · cases hc
+  · intro r hr x hx
+    obtain ⟨r', hr', hl⟩ := subdirs_spec fs h
+    rw [hr] at hr'
+    have hrr : r = r' := Res.ok.inj hr'
+    subst hrr
+    obtain ⟨es, hes, c, hc, rfl⟩ := (hl.2 x).mp hx
+    obtain ⟨w, hw, rfl⟩ := List.mem_map.mp hes
+    obtain ⟨l, hl', rfl⟩ := List.mem_map.mp hw
+    refine ⟨walkOf l, hw, c, rfl, ?_⟩
+    unfold childDirs at hc
+    split at hc
+    · obtain ⟨e, he, rfl⟩ := List.mem_map.mp hc
+      obtain ⟨hew, hpred⟩ := List.mem_filter.mp he
+      obtain ⟨e0, he0, rfl⟩ := List.mem_map.mp hew
+      have hdir : kindOf e0.2 = .dir := by
+        simp only [Bool.and_eq_true, decide_eq_true_eq] at hpred
+        exact hpred.2
+      rw [posixAt_walkOf (hwf l hl'), at_walkOf,
+        Layer.get_of_mem (hwf l hl').nodup he0 ((hwf l hl').noRoot e0 he0)]
+      simp [hdir]
+    · cases hc
+
+/-- A layer that is not a tree: a regular file `a` with a stale entry `a/b` below it. -/
+private def brokenFs : Fs :=
+  ⟨[[([bs ['a']], .file [1]), ([bs ['a'], bs ['b']], .file [2])]],
+   .FE14, ⟨.lz13, .FE14, .little, .unicode⟩, .EnglishNA⟩
+
+/-- **The dependence is real**: on the non-closed layer the root listing contains `a/b`, which no
+path walk reaches (its parent `a` is a regular file) — a real `glob` would not return it. -/
+example :
+    brokenFs.list [] none false = .ok [bs ['a'], bs ['a', '/', 'b']] ∧
+    (walkOf [([bs ['a']], .file [1]), ([bs ['a'], bs ['b']], .file [2])]).posixAt [bs ['a'], bs ['b']] = none := by
+  refine ⟨by decide, by decide⟩
 
 end Mila.Props.C13
